@@ -152,16 +152,22 @@ func (tps *TPS) KeyGen(ctx context.Context) ([]byte, error) {
 
 	// We then distribute the polynomial evaluations (shares) to all parties.
 	// Each party 'i' gets P(i).
-	tps.shareDistribution(ctx, xShares, yShares)
+	if err := tps.shareDistribution(ctx, xShares, yShares); err != nil {
+		return nil, err
+	}
 
 	// Having received all shares, we combine all shares received from all parties by adding them.
 	pk := tps.combineShares()
 	pkBytes := pk.Bytes()
 
-	tps.commitPhase(ctx, pkBytes)
+	if err := tps.commitPhase(ctx, pkBytes); err != nil {
+		return nil, err
+	}
 
 	// Now we de-commit, and wait for everyone else to de-commit thus revealing their public key.
-	tps.revealPhase(ctx, pkBytes)
+	if err := tps.revealPhase(ctx, pkBytes); err != nil {
+		return nil, err
+	}
 	// Next, we ensure the commitments we received match the de-commitments
 	if err := tps.validateCommitments(); err != nil {
 		return nil, err
@@ -356,7 +362,7 @@ func localAggregateECPoints(points []*math.G2, evaluationPoints ...int64) *math.
 	return sum
 }
 
-func (tps *TPS) commitPhase(ctx context.Context, pk []byte) {
+func (tps *TPS) commitPhase(ctx context.Context, pk []byte) error {
 	digest := sha256.Sum256(pk)
 	commitment := digest[:]
 
@@ -364,14 +370,14 @@ func (tps *TPS) commitPhase(ctx context.Context, pk []byte) {
 
 	tps.sendMsg(encodeMsg(commitPK, commitment), true, 0)
 
-	tps.waitForCommitmentDistribution(ctx)
+	return tps.waitForCommitmentDistribution(ctx)
 }
 
-func (tps *TPS) revealPhase(ctx context.Context, pk []byte) {
+func (tps *TPS) revealPhase(ctx context.Context, pk []byte) error {
 	tps.Logger.Infof("Broadcasting public key: %s", base64.StdEncoding.EncodeToString(pk))
 	tps.sendMsg(encodeMsg(revealPK, pk), true, 0)
 
-	tps.waitForDeCommitmentDistribution(ctx)
+	return tps.waitForDeCommitmentDistribution(ctx)
 }
 
 func secretShare(n, t int) Shares {
@@ -379,30 +385,34 @@ func secretShare(n, t int) Shares {
 	return shares
 }
 
-func (tps *TPS) waitForCommitmentDistribution(ctx context.Context) {
+func (tps *TPS) waitForCommitmentDistribution(ctx context.Context) error {
 	tps.lock.Lock()
 	defer tps.lock.Unlock()
 
 	for !tps.contextTimedOut(ctx) {
 		if len(tps.commitments) == len(tps.parties)-1 {
-			return
+			return nil
 		}
 
 		tps.signal.Wait()
 	}
+
+	return fmt.Errorf("waitForCommitmentDistribution: %w", ctx.Err())
 }
 
-func (tps *TPS) waitForDeCommitmentDistribution(ctx context.Context) {
+func (tps *TPS) waitForDeCommitmentDistribution(ctx context.Context) error {
 	tps.lock.Lock()
 	defer tps.lock.Unlock()
 
 	for !tps.contextTimedOut(ctx) {
 		if len(tps.publicKeysOfParties) == len(tps.parties) {
-			return
+			return nil
 		}
 
 		tps.signal.Wait()
 	}
+
+	return fmt.Errorf("waitForDeCommitmentDistribution: %w", ctx.Err())
 }
 
 func (tps *TPS) combineShares() PK {
@@ -432,7 +442,7 @@ func (tps *TPS) combineShares() PK {
 	return pk
 }
 
-func (tps *TPS) shareDistribution(ctx context.Context, xShares Shares, yShares []Shares) {
+func (tps *TPS) shareDistribution(ctx context.Context, xShares Shares, yShares []Shares) error {
 	tps.sk = SK{
 		ys: make([]*math.Zr, tps.pp.n),
 		x:  xShares[tps.id-1],
@@ -450,20 +460,22 @@ func (tps *TPS) shareDistribution(ctx context.Context, xShares Shares, yShares [
 		tps.sendMsg(encodeMsg(shareDistribution, marshalShare(xShares[i], yShares, i+1, tps.pp.n)), false, tps.parties[i])
 	}
 
-	tps.waitForShareDistribution(ctx)
+	return tps.waitForShareDistribution(ctx)
 }
 
-func (tps *TPS) waitForShareDistribution(ctx context.Context) {
+func (tps *TPS) waitForShareDistribution(ctx context.Context) error {
 	tps.lock.Lock()
 	defer tps.lock.Unlock()
 
 	for !tps.contextTimedOut(ctx) {
 		if tps.sharesProcessed == len(tps.parties)-1 {
-			return
+			return nil
 		}
 
 		tps.signal.Wait()
 	}
+
+	return fmt.Errorf("waitForShareDistribution: %w", ctx.Err())
 }
 
 func (tps *TPS) contextTimedOut(ctx context.Context) bool {
